@@ -10,6 +10,8 @@ the controller and the environment (`Proofs.C12.run_of_reach / reach_of_run`).
 import CamVerif.Proofs.C12
 import CamVerif.Proofs.C12Order
 import CamVerif.Proofs.C12Stop
+import CamVerif.Proofs.C12Keep
+import CamVerif.Proofs.C12Intact
 namespace CamVerif.C12
 open CamVerif CamVerif.StreamLoop
 
@@ -24,6 +26,22 @@ def exScript : List Item :=
 /-- one complete iteration up to `parse` -/
 def exToParse : List Step :=
   [.checkCancel, .obtainAlloc, .submitOk, .submitOk, .submitOk, .submitOk, .pollOk, .pollOk, .pollOk, .pollOk]
+
+/-- first iteration completed, payload enqueued and received -/
+def exIter1 : List Step := exToParse ++ [.parse, .trySend, .iterEnd, .rxRecv]
+/-- ... and a second frame enqueued while the receiver still holds the first payload -/
+def exIter2 : List Step := exIter1 ++ exToParse ++ [.parse, .trySend]
+
+/-- Reachability of the end of a concrete schedule, with an observation `f` of the final state. -/
+private theorem ex_reach {α : Type} {steps : List Step} {f : State → α} {v : α}
+    (h : (run exP exA exScript (init exP) steps).map f = some v) :
+    ∃ s, Reach exP exA exScript s ∧ f s = v := by
+  cases hr : run exP exA exScript (init exP) steps with
+  | none => rw [hr] at h; cases h
+  | some s =>
+    rw [hr] at h
+    simp only [Option.map_some, Option.some.injEq] at h
+    exact ⟨s, reach_of_run Reach.init hr, h⟩
 
 /-! ## 6. recv_le_buf -/
 
@@ -70,7 +88,7 @@ private theorem PendOwn_step {P : Params} {A : Assembler} {script : List Item} {
   cases a <;> simp only [step] at hs <;> step_split <;>
     simp_all [PendOwn, PoolOK, applyData_cur_isSome]
 
-private structure Inv (P : Params) (s : State) : Prop where
+private structure Inv (P : Params) (A : Assembler) (script : List Item) (s : State) : Prop where
   pool : PoolOK P s
   sizes : Sizes P s
   reuse : ReuseOK s
@@ -79,17 +97,124 @@ private structure Inv (P : Params) (s : State) : Prop where
   ctl : CtlOK s
   pend : s.pending.length ≤ P.T
   pown : PendOwn s
+  keep : KeepUp P s
+  seg : Seg P script s
+  asmd : Asmd A s
 
 private theorem reach_inv {P : Params} {A : Assembler} {script : List Item} {s : State}
-    (h : Reach P A script s) : Inv P s := by
+    (h : Reach P A script s) : Inv P A script s := by
   induction h with
   | init =>
     exact ⟨PoolOK_init P, Sizes_init P, ReuseOK_init P, Own_init P, Order_init P, CtlOK_init P,
-      by simp [init], by simp [PendOwn, init]⟩
+      by simp [init], by simp [PendOwn, init], KeepUp_init P, Seg_init P script, Asmd_init P A⟩
   | step _ hs ih =>
     exact ⟨PoolOK_step ih.pool hs, Sizes_step ih.pool ih.sizes hs, ReuseOK_step ih.reuse hs,
       Own_step ih.pool ih.reuse ih.own hs, Order_step ih.pool ih.order hs, CtlOK_step ih.ctl hs,
-      pend_le_step ih.pool ih.pend hs, PendOwn_step ih.pool ih.pown hs⟩
+      pend_le_step ih.pool ih.pend hs, PendOwn_step ih.pool ih.pown hs,
+      KeepUp_step ih.order ih.keep hs, Seg_step ih.pool ih.seg hs,
+      Asmd_step ih.pool ih.sizes ih.asmd hs⟩
+
+/-! ## 1. frames_intact -/
+
+/-- The packets of one frame in the programmed layout: leader, the payload cut at the transfer
+boundaries (every payload transfer but the last completely filled), trailer. -/
+structure FramePackets (P : Params) (parts : List Bytes) : Prop where
+  len : parts.length = P.T
+  full : ∀ i (h : i + 1 < P.payloadSlots.length) (h' : i + 1 < parts.length),
+    parts[i + 1].length = (P.payloadSlots[i]'(by omega)).len
+
+/-- **ConformingFraming**: the device sends frame after frame, each as its own leader, payload in
+the programmed layout, trailer. -/
+def ConformingFraming (P : Params) (script : List Item) : Prop :=
+  ∃ frames : List (List Bytes), (∀ f ∈ frames, FramePackets P f) ∧
+    script = (frames.map (fun f => f.map Item.data)).flatten
+
+/-- payload packets of a frame: everything between leader and trailer -/
+def middle (parts : List Bytes) : List Bytes := (parts.drop 1).dropLast
+
+/-- FULL statement of frames_intact (kept as a checked `Prop`; the part proved below is
+`frames_intact_segment`; what is missing is the conclusion about the payload BUFFER —
+`buf.take read = payload packets concatenated`, `read = their total length` — which the trace
+acceptance checks by digest on every delivered payload).  Under conforming framing every enqueued `Ok`
+payload whose segment starts at a frame boundary was built by `A` from exactly that frame's leader
+packet, trailer packet and a buffer whose first `read` bytes are that frame's payload. -/
+def C12_frames_intact_full : Prop :=
+  ∀ (P : Params) (A : Assembler) (script : List Item) (s : State),
+    Reach P A script s → ConformingFraming P script →
+    ∀ m ∈ s.sentLog, m.start % P.T = 0 →
+      ∃ leader trailer : Bytes, m.parts.head? = some leader ∧ m.parts.getLast? = some trailer ∧
+        m.read = ((middle m.parts).map List.length).sum ∧
+        m.buf.bytes.take m.read = (middle m.parts).flatten ∧
+        A leader trailer m.buf.bytes m.read = .built ⟨m.valid, m.info⟩
+
+/-- **frames_intact (segment form, proved)**: for every stream layout, device script, assembler
+and schedule, every `Ok` payload ever enqueued
+* was assembled from exactly the `T` CONSECUTIVE packets `script[start .. start+T)` the device
+  sent — its ghost field `parts` — never from packets of any other position (by `in_order_no_dup`
+  the segments of different payloads are disjoint);
+* carries exactly what the parse/build function `A` returns for the FIRST packet of that segment
+  as leader bytes and the LAST packet as trailer bytes (no stale bytes of an earlier frame), the
+  payload's own buffer and its `read_payload_size`.
+Under `ConformingFraming`, a segment starting at a frame boundary (`start = f·T`, which
+`all_when_keeping_up` establishes for fault-free runs) is precisely the packet list of frame `f`,
+so leader, trailer and all fields are that frame's. -/
+theorem frames_intact_segment (P : Params) (A : Assembler) (script : List Item) (s : State)
+    (h : Reach P A script s) :
+    ∀ m ∈ s.sentLog, m.parts.length = P.T ∧
+      (script.drop m.start).take P.T = m.parts.map Item.data ∧
+      ∃ leader trailer, m.parts.head? = some leader ∧ m.parts.getLast? = some trailer ∧
+        A leader trailer m.buf.bytes m.read = .built ⟨m.valid, m.info⟩ := by
+  intro m hm
+  have hi := reach_inv h
+  exact ⟨(hi.seg.sent m hm).1, (hi.seg.sent m hm).2, hi.asmd.sent m hm⟩
+
+/-- non-vacuity: two payloads enqueued from the segments starting at 0 and 4 (= T) -/
+example : ∃ s, Reach exP exA exScript s ∧
+    s.sentLog.map (fun m => (m.start, m.parts.length, m.buf.bytes, m.read)) =
+      [(0, 4, [10, 11, 12], 3), (4, 4, [20, 21, 22], 3)] :=
+  ex_reach (steps := exIter2) (by decide)
+
+/-! ## 3. all_when_keeping_up -/
+
+/-- **all_when_keeping_up**: if no fault event has happened so far (`faults = 0`: no failed
+submit, no transfer error/overflow/timeout, no frame rejected by parse/build, no `try_send` of an
+`Ok` payload that found the channel full or closed), then the enqueued payloads are exactly the
+segments `0, T, 2T, …` in order — one per complete frame the device has sent — none skipped
+(fewer than two further segments' worth of packets have been consumed: the frame in progress and,
+at `try_send`, the one just completed), and each is either already received or still queued for
+the receiver.  (`pc ≠ dead`: a loop thread killed by a panicking parse/build — excluded by C11's
+`build_total` — stops counting.) -/
+theorem all_when_keeping_up (P : Params) (A : Assembler) (script : List Item) (s : State)
+    (h : Reach P A script s) (hf : s.faults = 0) :
+    s.sentLog.map (·.start) = segStarts P.T s.sentLog.length ∧
+    s.recvLog ++ okMsgs s.chan = s.sentLog ∧
+    (s.pc ≠ .dead → s.consumed < (s.sentLog.length + 1) * P.T + P.T) := by
+  have hi := reach_inv h
+  obtain ⟨k1, k2⟩ := hi.keep hf
+  refine ⟨k1, hi.order.split, ?_⟩
+  intro hnd
+  have hT := T_ge_two P
+  have o := hi.order
+  have hcnt := o.cnt
+  simp only [Nat.add_mul, Nat.one_mul]
+  cases hpc : s.pc with
+  | top => simp only [hpc] at k2; omega
+  | exiting => simp only [hpc] at k2; omega
+  | exited => simp only [hpc] at k2; omega
+  | drop c => simp only [hpc] at k2; omega
+  | obtain => simp only [hpc] at k2; omega
+  | submit k => simp only [hpc] at k2; omega
+  | poll => simp only [hpc] at k2 hcnt; omega
+  | parse => simp only [hpc] at k2 hcnt; omega
+  | send m =>
+    cases m with
+    | ok o' => simp only [hpc] at k2; omega
+    | err e => simp only [hpc] at k2
+  | dead => exact absurd hpc hnd
+
+/-- non-vacuity: a fault-free run with two frames sent, both enqueued -/
+example : ∃ s, Reach exP exA exScript s ∧ (s.faults, s.sentLog.length, s.consumed) = (0, 2, 8) :=
+  ex_reach (steps := exIter2) (by decide)
 
 /-! ## 2. in_order_no_dup -/
 
@@ -115,6 +240,10 @@ theorem in_order_no_dup (P : Params) (A : Assembler) (script : List Item) (s : S
     rcases hi.bound m hm with hb | ⟨he, hst⟩
     · have := hi.le; omega
     · have := hi.enqc he; omega
+
+/-- non-vacuity: one payload received, a second one enqueued -/
+example : ∃ s, Reach exP exA exScript s ∧ (s.recvLog.length, s.sentLog.length, s.chan.length) = (1, 2, 1) :=
+  ex_reach (steps := exIter2) (by decide)
 
 /-! ## 5. buffers_unique_owner -/
 
@@ -142,6 +271,12 @@ theorem buffers_unique_owner (P : Params) (A : Assembler) (script : List Item) (
     simp only [owned, loopOwned, hb, optId_some, List.count_append, List.count_cons, beq_self_eq_true,
       if_true, List.count_nil] at hle
     refine ⟨?_, ?_, ?_, ?_⟩ <;> (intro hmem; have := List.count_pos_iff.mpr hmem; omega)
+
+/-- non-vacuity: two buffers allocated; the receiver holds #0 while transfers write into #1 -/
+example : ∃ s, Reach exP exA exScript s ∧
+    (s.nextBuf, s.held.map (·.buf.id), s.cur.map (·.id), s.pending.length, s.pc) = (2, [0], some 1, 2, .poll) :=
+  ex_reach (steps := exIter1 ++ [.checkCancel, .obtainAlloc, .submitOk, .submitOk, .submitOk, .submitOk, .pollOk, .pollOk])
+    (by decide)
 
 /-- A payload the receiver holds is a value no loop step touches: loop steps leave `held` as it is
 (and, by `buffers_unique_owner`, write only to a buffer with a different identity). -/
@@ -175,6 +310,11 @@ theorem loop_never_blocks (P : Params) (A : Assembler) (script : List Item) (s :
   cases hpd : s.pending with
   | nil => exact absurd hpd hne
   | cons x r => simp [step, stepPollPending, hpc, hpd]
+
+/-- non-vacuity: a polling loop with a full channel and a receiver that never receives -/
+example : ∃ s, Reach exP exA exScript s ∧ (s.pc, s.chan.length, s.pending.length) = (.poll, 1, 4) :=
+  ex_reach (steps := exToParse ++ [.parse, .trySend, .iterEnd, .checkCancel, .obtainAlloc,
+    .submitOk, .submitOk, .submitOk, .submitOk]) (by decide)
 
 /-! ## 7. stop_bounded -/
 
@@ -240,6 +380,17 @@ theorem stop_bounded (P : Params) (A : Assembler) (script : List Item) (s s' : S
   · intro hpc
     refine ⟨?_, fun a s'' hs => (no_enqueue_after_exit hpc hs).1⟩
     rcases hpc with hpc | hpc | hpc <;> (simp only [PoolOK, hpc] at h2; exact h2.1)
+
+/-- non-vacuity: a stop request in the middle of a frame; the loop cancels, reaps and leaves -/
+example : ∃ s, Reach exP exA exScript s ∧ (s.ctl, s.pc, s.pending.length) = (.stopping, .poll, 3) :=
+  ex_reach (steps := [.checkCancel, .obtainAlloc, .submitOk, .submitOk, .submitOk, .submitOk, .pollOk,
+    .stopCall, .stopBlock]) (by decide)
+
+example : (run exP exA exScript (init exP)
+    [.checkCancel, .obtainAlloc, .submitOk, .submitOk, .submitOk, .submitOk, .pollOk, .stopCall, .stopBlock,
+     .pollPending, .trySend, .cancelNext, .cancelNext, .cancelNext, .reapOne, .reapOne, .reapOne, .iterEnd,
+     .checkCancel, .exit]).map (fun s => (s.ctl, s.pc, s.pending.length, stopBound exP)) =
+    some (.stopOk, .exited, 0, 18) := by decide
 
 /-- `B(params)` is linear in the number of transfers per frame. -/
 theorem stopBound_linear (P : Params) :
